@@ -15,6 +15,7 @@ Definition sev_of_wrec (w : wrec) : sev :=
   | WEmptyDB db => SEmptyDB db
   | WUnknownDirective f u => SUnknownDirective f (u_line u) (u_col u) (spelling_of (u_toks u))
   | WMissingInclude e _ => sev_of_event e
+  | WMissingForced f n => SMissingForced f n
   end.
 
 (* an event stems from an #include directive at that file and line, of the form it is labelled with *)
